@@ -30,11 +30,11 @@ TIMEOUT = {"quick": 900, "thorough": 5400}
 
 def plan(tier, seed):
     if tier == "quick":
-        return [{"mode": "compiled", "hashseed": 0, "histories": 600},
-                {"mode": "compiled", "hashseed": 1, "histories": 600},
-                {"mode": "pure", "hashseed": 2, "histories": 600},
-                {"mode": "pure", "hashseed": 3, "histories": 600}]
-    return [{"mode": "compiled" if i % 2 == 0 else "pure", "hashseed": i % 8, "histories": 2500} for i in range(32)]
+        return [{"mode": "compiled", "hashseed": 0, "histories": 600, "churn": 1},
+                {"mode": "compiled", "hashseed": 1, "histories": 600, "churn": 1},
+                {"mode": "pure", "hashseed": 2, "histories": 600, "churn": 1},
+                {"mode": "pure", "hashseed": 3, "histories": 600, "churn": 1}]
+    return [{"mode": "compiled" if i % 2 == 0 else "pure", "hashseed": i % 8, "histories": 2500, "churn": 4} for i in range(32)]
 
 
 def str_supports(mgr):
@@ -135,7 +135,11 @@ def followup(real, twin, op, counters):
     return None
 
 
-def run_history(rng, counters, digests, samples, violations, known, nops, world_ops=None):
+CHURN_WEIGHTS = {"define": 0.4, "leafval": 0.08, "val": 0.2, "iop": 0.05, "unreg": 0.2, "ftask": 0.03, "knob": 0.0,
+                 "replace": 0.0, "unreg_task": 0.04, "load": 0.0, "refresh": 0.0, "cleanup": 0.0, "verify": 0.0}
+
+
+def run_history(rng, counters, digests, samples, violations, known, nops, world_ops=None, churn=False):
     import xdeps.tasks as T
     replay = world_ops is not None
     if replay:
@@ -143,7 +147,7 @@ def run_history(rng, counters, digests, samples, violations, known, nops, world_
         hg = gen.HistoryGen(rng, layered=True, profile="plain", world=(world, []))
     else:
         hg = gen.HistoryGen(rng, layered=True, depth=rng.choice([2, 3]), profile="plain",
-                            weights={"define": 0.34, "leafval": 0.12, "val": 0.14, "iop": 0.06, "unreg": 0.12,
+                            weights=CHURN_WEIGHTS if churn else {"define": 0.34, "leafval": 0.12, "val": 0.14, "iop": 0.06, "unreg": 0.12,
                                      "ftask": 0.04, "knob": 0.03, "replace": 0.02, "unreg_task": 0.04,
                                      "load": 0.05, "refresh": 0.02, "cleanup": 0.02, "verify": 0.02})
     ls = lockstep.LockStep(hg.world)
@@ -193,6 +197,9 @@ def run_history(rng, counters, digests, samples, violations, known, nops, world_
         if bad:
             report("index supports inconsistent after %s: %s" % (op[0], bad[:3]), index=bad[:6])
             return
+    if churn:
+        counters["churn_ops_total"] = counters.get("churn_ops_total", 0) + len(ls.ops)
+        counters["churn_removals_max_in_one_history"] = max(counters.get("churn_removals_max_in_one_history", 0), removed)
     if mgrmon.shadow_structural_cycle(hg.shadow, ls.runner):
         counters["histories_skipped_structural_cycle"] = counters.get("histories_skipped_structural_cycle", 0) + 1
         return
@@ -269,6 +276,14 @@ def run_shard(spec):
         run_history(rng, counters, digests, samples, violations, known, rng.randrange(6, 28))
         if len(violations) >= 5:
             break
+    # long histories on one manager: hundreds of definitions made and removed again without any refresh()
+    # (state that accumulates over many removals)
+    for h in range(spec.get("churn", 0)):
+        if len(violations) >= 5:
+            break
+        mgrmon.set_shuffle_rng(None)
+        run_history(rng, counters, digests, samples, violations, known, rng.randrange(1100, 1600), churn=True)
+        counters["churn_histories"] = counters.get("churn_histories", 0) + 1
     counters.update({"monitor_" + k: v for k, v in mgrmon.COUNTS.items()})
     counters["anchors_reached"] = dict(mgrmon.REACH)
     return {"evaluations": counters.get("histories", 0), "digests": sorted(digests), "samples": samples,
